@@ -17,7 +17,6 @@ Fixpoint asc (lo : N) (l : list (N * nat)) (hi : N) : Prop :=
   | (i, _) :: t => lo <= i /\ asc (i + 1) t hi
   end.
 
-Definition wf (s : state) : Prop := wfK s /\ asc 0 (st_revs s) (st_nextrev s).
 
 Lemma asc_le : forall l lo hi, asc lo l hi -> lo <= hi.
 Proof. induction l as [|[i j] t IH]; cbn; intros lo hi H; [auto|]. destruct H as [H1 H2]. apply IH in H2. lia. Qed.
@@ -68,13 +67,21 @@ Proof.
     rewrite (IH _ _ _ _ _ _ H2). lia.
 Qed.
 
-(** ---------------------------------------------------------------- wfK is stable *)
 
-Lemma undo_wfK : forall e s, wfK s -> wfK (undo e s).
+
+Lemma In_firstn : forall (A : Type) n (l : list A) x, In x (firstn n l) -> In x l.
+Proof. induction n; destruct l; cbn; intros; try tauto. destruct H; auto. Qed.
+
+Lemma set_revs_eqv : forall t r, eqv (set_revs t r) t.
+Proof. intros; constructor; ss; auto; pk. Qed.
+
+(** ---------------------------------------------------------------- wfU is stable under reverts *)
+
+Lemma undo_wfU : forall e s, wfU s -> wfU (undo e s).
 Proof.
   intros e s [Hn Hl].
-  assert (W : forall a f b, wfK (with_live s a f b)).
-  { intros a f b. destruct (with_live_spec s a f b) as (G & _). unglob G. unfold wfK. split; congruence. }
+  assert (W : forall a f b, wfU (with_live s a f b)).
+  { intros a f b. destruct (with_live_spec s a f b) as (G & _). unglob G. unfold wfU. split; congruence. }
   destruct e; unfold undo; auto; try (split; ss; auto; fail).
   - destruct prevdestruct; split; ss; auto.
   - split.
@@ -88,33 +95,40 @@ Proof.
     + apply NE_list_set; auto. discriminate.
 Qed.
 
-Lemma rewind_wfK : forall n s, wfK s -> wfK (rewind n s).
+Lemma rewind_wfU : forall n s, wfU s -> wfU (rewind n s).
 Proof.
   induction n; intros s H; [exact H|]. cbn [rewind].
   destruct (st_journal s) as [|e j]; auto. apply IHn.
-  assert (X : forall t, wfK t -> wfK (undo_dirty e t)).
+  assert (X : forall t, wfU t -> wfU (undo_dirty e t)).
   { intros t [? ?]; unfold undo_dirty. destruct (dirtied e); split; ss; auto. }
-  apply X. apply undo_wfK. destruct H; split; ss; auto.
+  apply X. apply undo_wfU. destruct H; split; ss; auto.
+Qed.
+
+Lemma al_ok_eqv : forall s1 s2, eqv s1 s2 -> al_ok s1 -> al_ok s2.
+Proof.
+  intros s1 s2 H K a idx Ha. rewrite <- (ev_aladdrs _ _ H) in Ha. rewrite <- (ev_alslots _ _ H). eauto.
 Qed.
 
 (* NB: these three are proved on a destructed state by evaluation only; comparing two
    different big state expressions by conversion is what makes the kernel slow. *)
 Ltac fields_by_eval s :=
   destruct s as [x0 x1 x2 x3 x4 x5 x6 x7 x8 x9 x10 x11 x12 x13 j x15 x16 x17 x18]; destruct j;
-  (split; [reflexivity | split; [reflexivity | intros [H1 H2]; split; [exact H1 | exact H2]]]).
+  (split; [reflexivity | split; [reflexivity | split; [reflexivity |
+    intros [[H1 H2] H3]; split; [split; [exact H1 | exact H2] | unfold al_ok in *; exact H3]]]]).
 
 Lemma finalise_fields : forall de s,
-  st_revs (finalise de s) = nil /\ st_nextrev (finalise de s) = st_nextrev s /\ (wfK s -> wfK (finalise de s)).
+  st_revs (finalise de s) = nil /\ st_nextrev (finalise de s) = st_nextrev s /\
+  st_crashed (finalise de s) = st_crashed s /\ (wfK s -> wfK (finalise de s)).
 Proof. intros de s. fields_by_eval s. Qed.
 
 Lemma intermediate_root_fields : forall de s,
   st_revs (intermediate_root de s) = nil /\ st_nextrev (intermediate_root de s) = st_nextrev s /\
-  (wfK s -> wfK (intermediate_root de s)).
+  st_crashed (intermediate_root de s) = st_crashed s /\ (wfK s -> wfK (intermediate_root de s)).
 Proof. intros de s. fields_by_eval s. Qed.
 
 Lemma commit_fields : forall de s,
   st_revs (fst (commit de s)) = nil /\ st_nextrev (fst (commit de s)) = st_nextrev s /\
-  (wfK s -> wfK (fst (commit de s))).
+  st_crashed (fst (commit de s)) = st_crashed s /\ (wfK s -> wfK (fst (commit de s))).
 Proof. intros de s. fields_by_eval s. Qed.
 
 (** what RevertToSnapshot does, given what its search returns *)
@@ -134,68 +148,189 @@ Proof.
   destruct (rewind_journal (length (st_journal s) - jidx) s) as (_ & R & _). rewrite R. reflexivity.
 Qed.
 
+(** ---------------------------------------------------------------- the reachable-state invariant *)
+
+(** journal indices of the valid revisions: within the journal, non-decreasing *)
+Definition jbound (s : state) : Prop := Forall (fun r => (snd r <= length (st_journal s))%nat) (st_revs s).
+Definition jsorted (l : list (N * nat)) : Prop :=
+  forall i j r1 r2, (i < j)%nat -> nth_error l i = Some r1 -> nth_error l j = Some r2 -> (snd r1 <= snd r2)%nat.
+(** reverting to any valid revision lands in a state whose access list is well indexed *)
+Definition PK (t : state) : Prop := al_ok t /\ st_crashed t = false.
+Definition hist (s : state) : Prop :=
+  Forall (fun r => PK (rewind (length (st_journal s) - snd r) s)) (st_revs s).
+
+Definition wf (s : state) : Prop :=
+  wfK s /\ asc 0 (st_revs s) (st_nextrev s) /\ jbound s /\ jsorted (st_revs s) /\ hist s /\ st_crashed s = false.
+
+Lemma PK_eqv : forall s1 s2, eqv s1 s2 -> PK s1 -> PK s2.
+Proof. intros s1 s2 H [A B]; split; [eapply al_ok_eqv; eauto | rewrite <- (ev_crashed _ _ H); auto]. Qed.
+
+(** the crash flag is sticky *)
+Lemma undo_sticky : forall e s, st_crashed s = true -> st_crashed (undo e s) = true.
+Proof.
+  intros e s H.
+  assert (W : forall a f b, st_crashed (with_live s a f b) = true)
+    by (intros a f b; rewrite with_live_crashed, H; destruct (live s a); [|destruct b]; reflexivity).
+  destruct e; unfold undo; auto.
+  - destruct prevdestruct; ss; auto.
+  - destruct (st_logs s txhash); ss; auto.
+  - unfold delete_slot_al. destruct (st_aladdrs s a) as [[idx|]|]; ss; auto.
+    destruct (nth_error (st_alslots s) idx); ss; auto. destruct (remove_n k l); ss; auto.
+Qed.
+
+Lemma rewind_sticky : forall n s, st_crashed (rewind n s) = false -> st_crashed s = false.
+Proof.
+  induction n; intros s H; [exact H|]. cbn [rewind] in H. destruct (st_journal s) as [|e j]; auto.
+  apply IHn in H. destruct (st_crashed s) eqn:E; auto.
+  assert (X : st_crashed (undo e (set_journal s j)) = true) by (apply undo_sticky; ss; auto).
+  unfold undo_dirty in H. destruct (dirtied e); ss; congruence.
+Qed.
+
+Lemma nth_error_firstn_lt : forall (A : Type) n (l : list A) m, (m < n)%nat -> nth_error (firstn n l) m = nth_error l m.
+Proof.
+  induction n; intros l m H; [lia|]. destruct l; [destruct m; reflexivity|]. destruct m; [reflexivity|].
+  cbn. apply IHn. lia.
+Qed.
+
+Lemma jsorted_firstn : forall n l, jsorted l -> jsorted (firstn n l).
+Proof.
+  intros n l H i j r1 r2 Hij H1 H2.
+  assert (A : forall m r, nth_error (firstn n l) m = Some r -> nth_error l m = Some r).
+  { intros m r Hm. assert (m < n)%nat.
+    { destruct (Nat.lt_ge_cases m n); auto.
+      assert (X : nth_error (firstn n l) m = None) by (apply nth_error_None; rewrite firstn_length; lia). congruence. }
+    rewrite nth_error_firstn_lt in Hm by auto. exact Hm. }
+  eapply H; eauto.
+Qed.
+
+Lemma al_ok_rewind_eqv : forall n s1 s2, eqv s1 s2 -> st_journal s1 = st_journal s2 ->
+  PK (rewind n s2) -> PK (rewind n s1).
+Proof. intros n s1 s2 E J K. eapply PK_eqv; [apply eqv_sym, rewind_eqv; eauto | exact K]. Qed.
+
 Lemma snapshot_wf : forall s, wf s -> wf (fst (snapshot s)).
 Proof.
-  intros s [[Hn Hl] Ha]. unfold snapshot; ss. split; [split; ss; auto|]. ss. apply asc_snoc; auto.
+  intros s (Hk & Ha & Hb & Hs & Hh & Hc). unfold snapshot; cbn [fst].
+  assert (E : eqv (set_revs (set_nextrev s (st_nextrev s + 1)) (st_revs s ++ [(st_nextrev s, length (st_journal s))])) s)
+    by (constructor; ss; auto; pk).
+  split; [apply (wfK_frame s); auto|]. split; [ss; apply asc_snoc; auto|]. split; [|split; [|split; [|exact Hc]]].
+  - unfold jbound in *; ss. apply Forall_app; split; auto.
+  - ss. intros i j r1 r2 Hij H1 H2.
+    destruct (Nat.lt_ge_cases j (length (st_revs s))) as [Hj|Hj].
+    + rewrite nth_error_app1 in H1 by lia. rewrite nth_error_app1 in H2 by lia. exact (Hs i j r1 r2 Hij H1 H2).
+    + rewrite nth_error_app2 in H2 by lia.
+      destruct (j - length (st_revs s))%nat eqn:Ej; [|destruct n; discriminate]. inversion H2; subst. cbn [snd].
+      rewrite nth_error_app1 in H1 by lia.
+      unfold jbound in Hb. rewrite Forall_forall in Hb. apply (Hb r1). eapply nth_error_In; eauto.
+  - unfold hist in *; ss. apply Forall_app; split.
+    + rewrite Forall_forall in *. intros r Hr. eapply al_ok_rewind_eqv; [exact E | reflexivity | apply Hh; auto].
+    + constructor; [|constructor]. cbn [snd]. rewrite Nat.sub_diag. cbn [rewind].
+      eapply PK_eqv; [apply eqv_sym; exact E | split; [apply Hk | exact Hc]].
 Qed.
 
 Lemma revert_wf : forall s id, wf s -> wf (fst (revert_to s id)).
 Proof.
-  intros s id [Hk Ha].
+  intros s id Hw. pose proof Hw as (Hk & Ha & Hb & Hs & Hh & Hc).
   pose proof (revert_to_spec s id) as H. cbn zeta in H.
-  destruct (nth_error (st_revs s) (search_rev (st_revs s) id 0)) as [[i j]|];
-    [destruct (N.eqb i id)|]; rewrite H; try (split; auto; fail).
-  destruct (rewind_journal (length (st_journal s) - j) s) as (_ & R & N).
-  pose proof (rewind_wfK (length (st_journal s) - j) s Hk) as [K1 K2].
-  cbn [fst]. split; [split; [exact K1 | exact K2]|].
-  change (asc 0 (firstn (search_rev (st_revs s) id 0) (st_revs s)) (st_nextrev (rewind (length (st_journal s) - j) s))).
-  rewrite N. apply asc_firstn; auto.
+  set (idx := search_rev (st_revs s) id 0) in *.
+  destruct (nth_error (st_revs s) idx) as [[i j]|] eqn:En;
+    [destruct (N.eqb i id)|]; rewrite H; auto.
+  cbn [fst].
+  set (k := (length (st_journal s) - j)%nat).
+  destruct (rewind_journal k s) as (RJ & RR & RN).
+  assert (Hj : (j <= length (st_journal s))%nat).
+  { unfold jbound in Hb. rewrite Forall_forall in Hb. apply (Hb (i, j)). eapply nth_error_In; eauto. }
+  assert (Hal : PK (rewind k s)).
+  { unfold hist in Hh. rewrite Forall_forall in Hh. apply (Hh (i, j)). eapply nth_error_In; eauto. }
+  assert (Hlen : length (st_journal (rewind k s)) = j) by (rewrite RJ, skipn_length; unfold k; lia).
+  assert (Hlt : forall r, In r (firstn idx (st_revs s)) -> (snd r <= j)%nat /\ In r (st_revs s)).
+  { intros r Hr. apply In_nth_error in Hr. destruct Hr as [m Hm].
+    assert (m < idx)%nat.
+    { destruct (Nat.lt_ge_cases m idx); auto.
+      assert (X : nth_error (firstn idx (st_revs s)) m = None) by (apply nth_error_None; rewrite firstn_length; lia). congruence. }
+    rewrite nth_error_firstn_lt in Hm by auto.
+    split; [apply (Hs m idx r (i, j)); auto | eapply nth_error_In; eauto]. }
+  split; [|split; [|split; [|split; [|split; [|exact (proj2 Hal)]]]]].
+  - destruct Hk as [Hu _]. pose proof (rewind_wfU k s Hu) as [K1 K2].
+    split; [split; [exact K1 | exact K2]|]. intros a0 i0 Ha0. exact (proj1 Hal a0 i0 Ha0).
+  - change (asc 0 (firstn idx (st_revs s)) (st_nextrev (rewind k s))). rewrite RN. apply asc_firstn; auto.
+  - unfold jbound. change (Forall (fun r => (snd r <= length (st_journal (rewind k s)))%nat) (firstn idx (st_revs s))).
+    rewrite Hlen. rewrite Forall_forall. intros r Hr. apply Hlt; auto.
+  - change (jsorted (firstn idx (st_revs s))). apply jsorted_firstn; auto.
+  - unfold hist.
+    change (Forall (fun r => PK (rewind (length (st_journal (rewind k s)) - snd r)
+                                    (set_revs (rewind k s) (firstn idx (st_revs s))))) (firstn idx (st_revs s))).
+    rewrite Hlen. rewrite Forall_forall. intros r Hr. destruct (Hlt r Hr) as [L1 L2].
+    eapply al_ok_rewind_eqv; [apply set_revs_eqv | reflexivity |].
+    rewrite <- rewind_add. replace (k + (j - snd r))%nat with (length (st_journal s) - snd r)%nat by (unfold k; lia).
+    unfold hist in Hh. rewrite Forall_forall in Hh. apply Hh; auto.
+Qed.
+
+Lemma clear_wf : forall s', wfK s' -> st_revs s' = nil -> st_crashed s' = false -> wf s'.
+Proof.
+  intros s' K R C. unfold wf, jbound, hist. rewrite R. split; [exact K|]. split; [cbn; apply N.le_0_l|].
+  split; [constructor|]. split; [|split; [constructor|exact C]].
+  intros i j r1 r2 _ H1. destruct i; discriminate.
 Qed.
 
 Lemma finalise_wf : forall de s, wf s -> wf (finalise de s).
 Proof.
-  intros de s [Hk Ha]. destruct (finalise_fields de s) as (A & B & C). split; auto. rewrite A, B. cbn [asc]. lia.
+  intros de s (Hk & _ & _ & _ & _ & Hc). destruct (finalise_fields de s) as (A & B & D & C). apply clear_wf; auto. congruence.
 Qed.
 
 Lemma intermediate_root_wf : forall de s, wf s -> wf (intermediate_root de s).
 Proof.
-  intros de s [Hk Ha]. destruct (intermediate_root_fields de s) as (A & B & C). split; auto. rewrite A, B. cbn [asc]. lia.
+  intros de s (Hk & _ & _ & _ & _ & Hc). destruct (intermediate_root_fields de s) as (A & B & D & C). apply clear_wf; auto. congruence.
 Qed.
 
 Lemma commit_wf : forall de s, wf s -> wf (fst (commit de s)).
 Proof.
-  intros de s [Hk Ha]. destruct (commit_fields de s) as (A & B & C). split; auto. rewrite A, B. cbn [asc]. lia.
+  intros de s (Hk & _ & _ & _ & _ & Hc). destruct (commit_fields de s) as (A & B & D & C). apply clear_wf; auto. congruence.
+Qed.
+
+Lemma plain_wf : forall s o, wf s -> plain o = true -> wf (fst (step s o)).
+Proof.
+  intros s o (Hk & Ha & Hb & Hs & Hh & Hc) Hp.
+  destruct (step_ext s o Hk Hp) as (R & N & W & _ & _ & es & J & E).
+  split; [auto|]. split; [rewrite R, N; auto|]. split; [|split; [|split]].
+  4: { apply (rewind_sticky (length es)). rewrite (ev_crashed _ _ E). exact Hc. }
+  - unfold jbound in *. rewrite R, J, app_length. rewrite Forall_forall in *. intros r Hr. specialize (Hb r Hr). lia.
+  - rewrite R; auto.
+  - unfold hist in *. rewrite R, J, app_length. rewrite Forall_forall in *. intros r Hr.
+    unfold jbound in Hb. rewrite Forall_forall in Hb. specialize (Hb r Hr).
+    replace (length es + length (st_journal s) - snd r)%nat with (length es + (length (st_journal s) - snd r))%nat by lia.
+    rewrite rewind_add. eapply al_ok_rewind_eqv; [exact E | | apply Hh; auto].
+    destruct (rewind_journal (length es) (fst (step s o))) as (A & _). rewrite A, J.
+    rewrite skipn_app, skipn_all, Nat.sub_diag. reflexivity.
 Qed.
 
 Lemma step_wf : forall s o, wf s -> wf (fst (step s o)).
 Proof.
   intros s o Hw.
-  destruct (plain o) eqn:Hp.
-  - destruct Hw as [Hk Ha]. destruct (step_ext s o Hk Hp) as (R & N & W & _). split; auto. rewrite R, N; auto.
-  - destruct o; try discriminate.
-    + exact (snapshot_wf s Hw).
-    + pose proof (revert_wf s id Hw) as X. unfold step. destruct (revert_to s id); exact X.
-    + exact (finalise_wf de s Hw).
-    + exact (intermediate_root_wf de s Hw).
-    + pose proof (commit_wf de s Hw) as X. unfold step. destruct (commit de s); exact X.
+  destruct (plain o) eqn:Hp; [apply plain_wf; auto|].
+  destruct o; try discriminate.
+  - exact (snapshot_wf s Hw).
+  - pose proof (revert_wf s id Hw) as X. unfold step. destruct (revert_to s id); exact X.
+  - exact (finalise_wf de s Hw).
+  - exact (intermediate_root_wf de s Hw).
+  - pose proof (commit_wf de s Hw) as X. unfold step. destruct (commit de s); exact X.
 Qed.
 
 Lemma run_wf : forall ops s, wf s -> wf (run ops s).
 Proof. induction ops; intros s H; cbn [run]; auto. apply IHops, step_wf; auto. Qed.
 
 Lemma new_state_wf : forall c, wf (new_state c).
-Proof. intro c; split; [split; cbn; [constructor | reflexivity] | cbn; lia]. Qed.
+Proof.
+  intro c. apply clear_wf; [|reflexivity|reflexivity].
+  split; [split; cbn; [constructor | reflexivity]|]. intros a idx H; discriminate.
+Qed.
 
 Lemma copy_wf : forall s, wf s -> wf (copy s).
-Proof. intros s [[Hn Hl] _]; split; [split; auto | cbn; lia]. Qed.
+Proof.
+  intros s ([[Hn Hl] Hok] & _). apply clear_wf; [|reflexivity|reflexivity].
+  split; [split; auto|]. intros a idx H. exact (Hok a idx H).
+Qed.
 
 (** ---------------------------------------------------------------- the snapshot invariant *)
-
-Lemma In_firstn : forall (A : Type) n (l : list A) x, In x (firstn n l) -> In x l.
-Proof. induction n; destruct l; cbn; intros; try tauto. destruct H; auto. Qed.
-
-Lemma set_revs_eqv : forall t r, eqv (set_revs t r) t.
-Proof. intros; constructor; ss; auto; pk. Qed.
 
 Section Revert.
   Variable s0 : state.
@@ -223,7 +358,7 @@ Section Revert.
   Proof.
     intros s o (Hw & Hn & es & rest & J & E & R & F) Hp.
     pose proof (step_wf s o Hw) as Hw'.
-    destruct Hw as [Hk _]. destruct (step_ext s o Hk Hp) as (R' & N' & _ & es' & J' & E').
+    destruct Hw as (Hk & _). destruct (step_ext s o Hk Hp) as (R' & N' & _ & _ & _ & es' & J' & E').
     split; auto. split; [rewrite N'; auto|].
     exists (es' ++ es), rest. split; [|split; [|split]]; auto.
     - rewrite J', J, app_assoc; reflexivity.
@@ -245,7 +380,7 @@ Section Revert.
   Qed.
 
   Lemma ids_below : forall i, In i (map fst (st_revs s0)) -> i < st_nextrev s0.
-  Proof. intros i H. destruct wf0 as [_ A]. apply (asc_In _ _ _ _ A H). Qed.
+  Proof. intros i H. destruct wf0 as (_ & A & _). apply (asc_In _ _ _ _ A H). Qed.
 
   Lemma good_revert : forall s i, Good s -> Good (fst (revert_to s i)) \/ Dead (fst (revert_to s i)).
   Proof.
@@ -291,7 +426,7 @@ Section Revert.
   Proof.
     intros s o (Hw & Hn & Hi). pose proof (step_wf s o Hw) as Hw'. split; auto.
     destruct (plain o) eqn:Hp.
-    - destruct Hw as [Hk _]. destruct (step_ext s o Hk Hp) as (R & N & _). rewrite R, N. auto.
+    - destruct Hw as (Hk & _). destruct (step_ext s o Hk Hp) as (R & N & _). rewrite R, N. auto.
     - destruct o; try discriminate.
       + unfold step, snapshot; ss. split; [lia|]. rewrite map_app, in_app_iff. cbn. intros [H|[H|[]]]; [tauto|lia].
       + pose proof (revert_to_spec s id) as H. cbn zeta in H. unfold step.
@@ -331,7 +466,7 @@ Section Revert.
   Proof.
     intros s (Hw & Hn & es & rest & J & E & R & F).
     pose proof (revert_to_spec s (st_nextrev s0)) as H. cbn zeta in H.
-    destruct Hw as [_ Ha]. rewrite R in Ha.
+    destruct Hw as (_ & Ha & _). rewrite R in Ha.
     assert (S : search_rev (st_revs s) (st_nextrev s0) 0 = length (st_revs s0)).
     { rewrite R. erewrite search_found by eauto. reflexivity. }
     assert (Nth : nth_error (st_revs s) (length (st_revs s0)) = Some (st_nextrev s0, length (st_journal s0))).
